@@ -279,21 +279,34 @@ Proof. intros. repeat split. Qed.
 
       for i in range(n//2):
           a, b = x[i], x[-1-i]
-          x[i], x[-1-i] = if_swap(a >= b, a, b)        # NB: compares the elements, not key(...)
-      return min(x[:(n+1)//2], key=key), max(x[n//2:], key=key)                           *)
+          x[i], x[-1-i] = self.if_swap(key(a) >= key(b), a, b)
+      return min(x[:(n+1)//2], key=key), max(x[n//2:], key=key)      # x[n//2] in both halves if n odd *)
 
-Definition prepass_step (n : nat) (x : list Z) (i : nat) : list Z :=
-  let a := nth i x 0 in let b := nth (n - 1 - i) x 0 in
-  let ab := if a >=? b then (b, a) else (a, b) in
-  set_nth (n - 1 - i) (snd ab) (set_nth i (fst ab) x).
+Section MinMax.
+Context {A : Type}.
+Variable key : A -> Z.
+Variable d : A.      (* default for out-of-range reads; never used *)
 
-Definition prepass (x : list Z) : list Z :=
+(** if_swap(key(a) >= key(b), a, b): on equal keys the two elements ARE swapped *)
+Definition lo (a b : A) : A := if key a >=? key b then b else a.
+Definition hi (a b : A) : A := if key a >=? key b then a else b.
+
+Definition prepass_step (n : nat) (x : list A) (i : nat) : list A :=
+  let a := nth i x d in let b := nth (n - 1 - i) x d in
+  set_nth (n - 1 - i) (hi a b) (set_nth i (lo a b) x).
+
+Definition prepass (x : list A) : list A :=
   let n := length x in fold_left (prepass_step n) (seq 0 (n / 2)) x.
 
-Definition min_max_model (key : Z -> Z) (x : list Z) : option Z * option Z :=
+Definition min_max_model (x : list A) : option A * option A :=
   let n := length x in
   let x' := prepass x in
   (min_model key (firstn ((n + 1) / 2) x'), max_model key (skipn (n / 2) x')).
+
+Lemma lo_cases a b : (lo a b = a \/ lo a b = b) /\ key (lo a b) = Z.min (key a) (key b).
+Proof. unfold lo. destruct (Z.geb_spec (key a) (key b)); split; auto; lia. Qed.
+Lemma hi_cases a b : (hi a b = a \/ hi a b = b) /\ key (hi a b) = Z.max (key a) (key b).
+Proof. unfold hi. destruct (Z.geb_spec (key a) (key b)); split; auto; lia. Qed.
 
 Lemma prepass_step_length n x i : length (prepass_step n x i) = length x.
 Proof. unfold prepass_step. rewrite !set_nth_length. reflexivity. Qed.
@@ -302,12 +315,12 @@ Lemma prepass_steps_length n l : forall x, length (fold_left (prepass_step n) l 
 Proof. induction l as [|i l IH]; intros x; simpl; [reflexivity|]. rewrite IH. apply prepass_step_length. Qed.
 
 (** state after the first k iterations, position by position *)
-Lemma prepass_nth (x : list Z) (k : nat) : (k <= length x / 2)%nat ->
+Lemma prepass_nth (x : list A) (k : nat) : (k <= length x / 2)%nat ->
   forall j, (j < length x)%nat ->
-    nth j (fold_left (prepass_step (length x)) (seq 0 k) x) 0 =
-      if (j <? k)%nat then Z.min (nth j x 0) (nth (length x - 1 - j) x 0)
-      else if (length x - 1 - k <? j)%nat then Z.max (nth j x 0) (nth (length x - 1 - j) x 0)
-      else nth j x 0.
+    nth j (fold_left (prepass_step (length x)) (seq 0 k) x) d =
+      if (j <? k)%nat then lo (nth j x d) (nth (length x - 1 - j) x d)
+      else if (length x - 1 - k <? j)%nat then hi (nth (length x - 1 - j) x d) (nth j x d)
+      else nth j x d.
 Proof.
   set (n := length x).
   assert (Hn2 : (2 * (n / 2) <= n)%nat) by (apply Nat.mul_div_le; lia).
@@ -324,107 +337,132 @@ Proof.
     repeat match goal with
            | |- context [Nat.ltb ?a ?b] => destruct (Nat.ltb_spec a b); try lia
            | |- context [Nat.eqb ?a ?b] => destruct (Nat.eqb_spec a b); try lia
-           end; cbn [andb fst snd]; subst;
-    repeat match goal with
-           | |- context [Z.geb ?a ?b] => destruct (Z.geb_spec a b)
-           end; cbn [fst snd];
-    try replace (n - 1 - (n - 1 - k))%nat with k by lia; try lia.
+           end; cbn [andb]; subst;
+    try replace (n - 1 - (n - 1 - k))%nat with k by lia; try reflexivity; try lia.
 Qed.
 
 Lemma prepass_length x : length (prepass x) = length x.
 Proof. unfold prepass. apply prepass_steps_length. Qed.
 
-Lemma prepass_spec (x : list Z) : forall j, (j < length x)%nat ->
-  nth j (prepass x) 0 =
-    if (j <? length x / 2)%nat then Z.min (nth j x 0) (nth (length x - 1 - j) x 0)
-    else if (length x - 1 - length x / 2 <? j)%nat then Z.max (nth j x 0) (nth (length x - 1 - j) x 0)
-    else nth j x 0.
+Lemma prepass_spec (x : list A) : forall j, (j < length x)%nat ->
+  nth j (prepass x) d =
+    if (j <? length x / 2)%nat then lo (nth j x d) (nth (length x - 1 - j) x d)
+    else if (length x - 1 - length x / 2 <? j)%nat then hi (nth (length x - 1 - j) x d) (nth j x d)
+    else nth j x d.
 Proof. intros j Hj. unfold prepass. apply prepass_nth; [lia|exact Hj]. Qed.
 
-Lemma In_nth_ex (l : list Z) a : In a l -> exists j, (j < length l)%nat /\ nth j l 0 = a.
-Proof. intros H. destruct (In_nth l a 0 H) as [j [H1 H2]]. eauto. Qed.
-
-Theorem min_max_eq_fold : forall a l,
-  min_max_model zid (a :: l) = (Some (fold_left Z.min l a), Some (fold_left Z.max l a)).
+Lemma half_facts n : (2 * (n / 2) <= n /\ n < 2 * (n / 2) + 2 /\ (n + 1) / 2 = n - n / 2)%nat.
 Proof.
-  intros a l. set (x := a :: l). unfold min_max_model.
-  set (n := length x). set (x' := prepass x).
-  assert (Hn : (1 <= n)%nat) by (unfold n, x; simpl; lia).
-  assert (L' : length x' = n) by apply prepass_length.
-  assert (Hn2 : (2 * (n / 2) <= n /\ n < 2 * (n / 2) + 2)%nat).
-  { pose proof (Nat.div_mod n 2 ltac:(lia)). pose proof (Nat.mod_upper_bound n 2 ltac:(lia)). lia. }
-  assert (Hc : ((n + 1) / 2 = n - n / 2)%nat).
-  { symmetry. apply Nat.div_unique with (r := (n + 1 - 2 * (n - n / 2))%nat); lia. }
-  assert (S' : forall j, (j < n)%nat -> nth j x' 0 =
-      if (j <? n / 2)%nat then Z.min (nth j x 0) (nth (n - 1 - j) x 0)
-      else if (n - 1 - n / 2 <? j)%nat then Z.max (nth j x 0) (nth (n - 1 - j) x 0)
-      else nth j x 0) by (intros j Hj; apply prepass_spec; exact Hj).
-  f_equal.
-  - (* minimum of the lower half *)
-    set (lo := firstn ((n + 1) / 2) x').
-    assert (Llo : length lo = ((n + 1) / 2)%nat) by (unfold lo; rewrite firstn_length; lia).
-    assert (Nlo : forall j, (j < (n + 1) / 2)%nat -> nth j lo 0 = nth j x' 0).
-    { intros j Hj. unfold lo. rewrite <- (firstn_skipn ((n + 1) / 2) x') at 2.
-      rewrite app_nth1 by (fold lo; lia). reflexivity. }
-    destruct (min_model_spec zid lo) as [m [E [I M]]].
-    { intros E. assert (length lo = 0)%nat by (rewrite E; reflexivity). lia. }
-    rewrite E. f_equal. unfold zid in M.
-    destruct (fold_min_spec l a) as [I' M']. fold x in I', M'.
-    assert (Hle : fold_left Z.min l a <= m).
-    { destruct (In_nth_ex lo m I) as [j [Hj <-]]. rewrite Nlo, S' by lia.
-      repeat match goal with |- context [Nat.ltb ?a ?b] => destruct (Nat.ltb_spec a b) end.
-      - destruct (Z.min_spec (nth j x 0) (nth (n - 1 - j) x 0)) as [[_ ->]|[_ ->]];
-          apply M', nth_In; fold n; lia.
-      - lia.
-      - apply M', nth_In; fold n; lia. }
-    assert (Hge : m <= fold_left Z.min l a).
-    { destruct (In_nth_ex x _ I') as [j [Hj <-]]. fold n in Hj.
-      destruct (Nat.lt_ge_cases j ((n + 1) / 2)) as [Hjl|Hjl].
-      - assert (Hm : m <= nth j lo 0) by (apply M, nth_In; lia).
-        rewrite Nlo, S' in Hm by lia.
-        repeat match type of Hm with context [Nat.ltb ?a ?b] => destruct (Nat.ltb_spec a b) end; lia.
-      - assert (Hm : m <= nth (n - 1 - j) lo 0) by (apply M, nth_In; lia).
-        rewrite Nlo, S' in Hm by lia.
-        replace (n - 1 - (n - 1 - j))%nat with j in Hm by lia.
-        repeat match type of Hm with context [Nat.ltb ?a ?b] => destruct (Nat.ltb_spec a b) end; lia. }
-    lia.
-  - (* maximum of the upper half *)
-    set (hi := skipn (n / 2) x').
-    assert (Lhi : length hi = (n - n / 2)%nat) by (unfold hi; rewrite skipn_length; lia).
-    assert (Nhi : forall j, (j < n - n / 2)%nat -> nth j hi 0 = nth (n / 2 + j) x' 0).
-    { intros j Hj. unfold hi. rewrite <- (firstn_skipn (n / 2) x') at 2.
-      rewrite app_nth2; rewrite firstn_length; [|lia]. f_equal. lia. }
-    destruct (max_model_spec zid hi) as [m [E [I M]]].
-    { intros E. assert (length hi = 0)%nat by (rewrite E; reflexivity). lia. }
-    rewrite E. f_equal. unfold zid in M.
-    destruct (fold_max_spec l a) as [I' M']. fold x in I', M'.
-    assert (Hle : m <= fold_left Z.max l a).
-    { destruct (In_nth_ex hi m I) as [j [Hj <-]]. rewrite Nhi, S' by lia.
-      repeat match goal with |- context [Nat.ltb ?a ?b] => destruct (Nat.ltb_spec a b) end.
-      - lia.
-      - destruct (Z.max_spec (nth (n / 2 + j) x 0) (nth (n - 1 - (n / 2 + j)) x 0)) as [[_ ->]|[_ ->]];
-          apply M', nth_In; fold n; lia.
-      - apply M', nth_In; fold n; lia. }
-    assert (Hge : fold_left Z.max l a <= m).
-    { destruct (In_nth_ex x _ I') as [j [Hj <-]]. fold n in Hj.
-      destruct (Nat.lt_ge_cases j (n / 2)) as [Hjl|Hjl].
-      - assert (Hm : nth (n - 1 - j - n / 2) hi 0 <= m) by (apply M, nth_In; lia).
-        rewrite Nhi, S' in Hm by lia.
-        replace (n / 2 + (n - 1 - j - n / 2))%nat with (n - 1 - j)%nat in Hm by lia.
-        replace (n - 1 - (n - 1 - j))%nat with j in Hm by lia.
-        repeat match type of Hm with context [Nat.ltb ?a ?b] => destruct (Nat.ltb_spec a b) end; lia.
-      - assert (Hm : nth (j - n / 2) hi 0 <= m) by (apply M, nth_In; lia).
-        rewrite Nhi, S' in Hm by lia.
-        replace (n / 2 + (j - n / 2))%nat with j in Hm by lia.
-        repeat match type of Hm with context [Nat.ltb ?a ?b] => destruct (Nat.ltb_spec a b) end; lia. }
-    lia.
+  pose proof (Nat.div_mod n 2 ltac:(lia)). pose proof (Nat.mod_upper_bound n 2 ltac:(lia)).
+  split; [lia|]. split; [lia|].
+  symmetry. apply Nat.div_unique with (r := (n + 1 - 2 * (n - n / 2))%nat); lia.
 Qed.
 
-(** with a key the pre-pass still compares the raw elements: min_max is wrong for non-monotone keys *)
-Theorem min_max_key_refuted :
-  exists (key : Z -> Z) (x : list Z) m M, min_max_model key x = (Some m, Some M) /\
-    ~ (forall a, In a x -> key m <= key a).
+(** every entry after the pre-pass is an entry of the input *)
+Lemma prepass_elem x j : (j < length x)%nat -> exists j', (j' < length x)%nat /\ nth j (prepass x) d = nth j' x d.
 Proof.
-  exists Z.opp, [1; 2], 1, 2. split; [reflexivity|].
-  intros H. specialize (H 2 (or_intror (or_introl eq_refl))). simpl in H. lia.
+  intros Hj. rewrite prepass_spec by exact Hj. set (n := length x) in *.
+  destruct (Nat.ltb_spec j (n / 2)).
+  - destruct (lo_cases (nth j x d) (nth (n - 1 - j) x d)) as [[-> | ->] _];
+      [exists j|exists (n - 1 - j)%nat]; split; auto; lia.
+  - destruct (Nat.ltb_spec (n - 1 - n / 2) j).
+    + destruct (hi_cases (nth (n - 1 - j) x d) (nth j x d)) as [[-> | ->] _];
+        [exists (n - 1 - j)%nat|exists j]; split; auto; lia.
+    + exists j. auto.
+Qed.
+
+(** every input entry is dominated from below by an entry of the lower half (incl. the middle) ... *)
+Lemma prepass_lower x j : (j < length x)%nat ->
+  exists j0, (j0 < (length x + 1) / 2)%nat /\ key (nth j0 (prepass x) d) <= key (nth j x d).
+Proof.
+  intros Hj. set (n := length x) in *. destruct (half_facts n) as [H1 [H2 H3]].
+  destruct (Nat.lt_ge_cases j (n / 2)) as [Hlt|Hge].
+  - exists j. split; [lia|]. rewrite prepass_spec by exact Hj. fold n.
+    destruct (Nat.ltb_spec j (n / 2)); [|lia].
+    destruct (lo_cases (nth j x d) (nth (n - 1 - j) x d)) as [_ ->]. lia.
+  - destruct (Nat.lt_ge_cases j ((n + 1) / 2)) as [Hmid|Hup].
+    + (* the middle element of an odd-length list *)
+      exists j. split; [exact Hmid|]. rewrite prepass_spec by exact Hj. fold n.
+      destruct (Nat.ltb_spec j (n / 2)); [lia|].
+      destruct (Nat.ltb_spec (n - 1 - n / 2) j); [lia|]. lia.
+    + exists (n - 1 - j)%nat. split; [lia|]. rewrite prepass_spec by (fold n; lia). fold n.
+      destruct (Nat.ltb_spec (n - 1 - j) (n / 2)); [|lia].
+      replace (n - 1 - (n - 1 - j))%nat with j by lia.
+      destruct (lo_cases (nth (n - 1 - j) x d) (nth j x d)) as [_ ->]. lia.
+Qed.
+
+(** ... and from above by an entry of the upper half (incl. the middle) *)
+Lemma prepass_upper x j : (j < length x)%nat ->
+  exists j1, (length x / 2 <= j1 < length x)%nat /\ key (nth j x d) <= key (nth j1 (prepass x) d).
+Proof.
+  intros Hj. set (n := length x) in *. destruct (half_facts n) as [H1 [H2 H3]].
+  destruct (Nat.lt_ge_cases j (n / 2)) as [Hlt|Hge].
+  - exists (n - 1 - j)%nat. split; [lia|]. rewrite prepass_spec by (fold n; lia). fold n.
+    destruct (Nat.ltb_spec (n - 1 - j) (n / 2)); [lia|].
+    destruct (Nat.ltb_spec (n - 1 - n / 2) (n - 1 - j)); [|lia].
+    replace (n - 1 - (n - 1 - j))%nat with j by lia.
+    destruct (hi_cases (nth j x d) (nth (n - 1 - j) x d)) as [_ ->]. lia.
+  - exists j. split; [lia|]. rewrite prepass_spec by exact Hj. fold n.
+    destruct (Nat.ltb_spec j (n / 2)); [lia|].
+    destruct (Nat.ltb_spec (n - 1 - n / 2) j).
+    + destruct (hi_cases (nth (n - 1 - j) x d) (nth j x d)) as [_ ->]. lia.
+    + lia.
+Qed.
+
+Lemma In_nth_ex (l : list A) a : In a l -> exists j, (j < length l)%nat /\ nth j l d = a.
+Proof. intros H. destruct (In_nth l a d H) as [j [H1 H2]]. eauto. Qed.
+
+(** min_max with any key: both results are elements of x, with minimal resp. maximal key *)
+Theorem min_max_key_spec : forall x, x <> [] ->
+  exists m M, min_max_model x = (Some m, Some M) /\ In m x /\ In M x /\
+    (forall a, In a x -> key m <= key a) /\ (forall a, In a x -> key a <= key M).
+Proof.
+  intros x Hne. unfold min_max_model.
+  set (n := length x). set (x' := prepass x).
+  assert (Hn : (1 <= n)%nat) by (unfold n; destruct x; [contradiction|simpl; lia]).
+  assert (L' : length x' = n) by apply prepass_length.
+  destruct (half_facts n) as [H1 [H2 H3]].
+  set (lo_half := firstn ((n + 1) / 2) x').
+  assert (Llo : length lo_half = ((n + 1) / 2)%nat) by (unfold lo_half; rewrite firstn_length; lia).
+  assert (Nlo : forall j, (j < (n + 1) / 2)%nat -> nth j lo_half d = nth j x' d).
+  { intros j Hj. unfold lo_half. rewrite <- (firstn_skipn ((n + 1) / 2) x') at 2.
+    rewrite app_nth1 by (fold lo_half; lia). reflexivity. }
+  set (hi_half := skipn (n / 2) x').
+  assert (Lhi : length hi_half = (n - n / 2)%nat) by (unfold hi_half; rewrite skipn_length; lia).
+  assert (Nhi : forall j, (j < n - n / 2)%nat -> nth j hi_half d = nth (n / 2 + j) x' d).
+  { intros j Hj. unfold hi_half. rewrite <- (firstn_skipn (n / 2) x') at 2.
+    rewrite app_nth2; rewrite firstn_length; [|lia]. f_equal. lia. }
+  destruct (min_model_spec key lo_half) as [m [Em [Im Mm]]].
+  { intros E. assert (length lo_half = 0)%nat by (rewrite E; reflexivity). lia. }
+  destruct (max_model_spec key hi_half) as [M [EM [IM MM]]].
+  { intros E. assert (length hi_half = 0)%nat by (rewrite E; reflexivity). lia. }
+  exists m, M. rewrite Em, EM. split; [reflexivity|].
+  split; [|split; [|split]].
+  - destruct (In_nth_ex lo_half m Im) as [j [Hj <-]]. rewrite Nlo by lia.
+    destruct (prepass_elem x j ltac:(fold n; lia)) as [j' [Hj' E]]. fold x' in E. rewrite E.
+    apply nth_In. exact Hj'.
+  - destruct (In_nth_ex hi_half M IM) as [j [Hj <-]]. rewrite Nhi by lia.
+    destruct (prepass_elem x (n / 2 + j)%nat ltac:(fold n; lia)) as [j' [Hj' E]]. fold x' in E. rewrite E.
+    apply nth_In. exact Hj'.
+  - intros a Ha. destruct (In_nth_ex x a Ha) as [j [Hj <-]].
+    destruct (prepass_lower x j Hj) as [j0 [Hj0 Hle]]. fold n in Hj0. fold x' in Hle.
+    assert (Hm : key m <= key (nth j0 lo_half d)) by (apply Mm, nth_In; lia).
+    rewrite Nlo in Hm by exact Hj0. lia.
+  - intros a Ha. destruct (In_nth_ex x a Ha) as [j [Hj <-]].
+    destruct (prepass_upper x j Hj) as [j1 [Hj1 Hle]]. fold n in Hj1. fold x' in Hle.
+    assert (HM : key (nth (j1 - n / 2) hi_half d) <= key M) by (apply MM, nth_In; lia).
+    rewrite Nhi in HM by lia. replace (n / 2 + (j1 - n / 2))%nat with j1 in HM by lia. lia.
+Qed.
+
+End MinMax.
+
+(** numbers without key: both extremes, every length *)
+Theorem min_max_eq_fold : forall a l,
+  min_max_model zid 0 (a :: l) = (Some (fold_left Z.min l a), Some (fold_left Z.max l a)).
+Proof.
+  intros a l. destruct (min_max_key_spec zid 0 (a :: l)) as [m [M [E [Im [IM [Hm HM]]]]]]; [discriminate|].
+  rewrite E. unfold zid in Hm, HM.
+  destruct (fold_min_spec l a) as [I1 M1]. destruct (fold_max_spec l a) as [I2 M2].
+  pose proof (Hm _ I1). pose proof (M1 _ Im). pose proof (HM _ I2). pose proof (M2 _ IM).
+  f_equal; f_equal; lia.
 Qed.
